@@ -30,6 +30,9 @@ CONSTANTS
     IkSpan,             \* "run": the idempotency key is reserved until run() returns (covers the wait)
                         \* "exec": it is dropped when the executor returns
     RevertGuard,        \* TRUE: RevertTransaction reserves the target id while it runs
+    MetaLogsCarryIk,    \* TRUE: metadata logs carry the idempotency key of their request
+    CancelAbortsWait,   \* TRUE: a cancelled request stops waiting for the persistence of its log and reports an error
+    MaxCancel,          \* number of request contexts cancelled per behaviour
     MaxCrash            \* number of crash/restart cycles explored
 
 VARIABLES
@@ -48,10 +51,11 @@ VARIABLES
     resp,       \* [Procs -> response]
     events,     \* sequence of published events
     gen,        \* commander generation (0 before the crash, 1 after restart)
-    crashes
+    crashes,
+    cancelled   \* requests whose context has been cancelled by their caller
 
 vars == <<req, pc, loc, store, lastLog, lastTx, refs, rl, wl, lq, seqOwner, pending, inflight,
-          doneSet, resp, events, gen, crashes>>
+          doneSet, resp, events, gen, crashes, cancelled>>
 
 Accts == {"A", "B", "C", "M", "world"}
 \* accounts as seen by the lock manager: "" is what an unregistered source shows up as
@@ -66,8 +70,8 @@ MkLog(id, kind, by, txid, target, tacct, mval, postings, ref, ik, od) ==
 
 P(s, d, a) == [src |-> s, dst |-> d, amt |-> a]
 
-\* the ledger before the requests: world -> A 1 (tx 0) and metadata M.payer = "A"
-InitStore == <<MkLog(0, "tx", "init", 0, -1, "", "", <<P("world", "A", 1)>>, "", "", FALSE),
+\* the ledger before the requests: world -> A 3 (tx 0) and metadata M.payer = "A"
+InitStore == <<MkLog(0, "tx", "init", 0, -1, "", "", <<P("world", "A", 3)>>, "", "", FALSE),
                MkLog(1, "set", "init", -1, -1, "M", "A", <<>>, "", "", FALSE)>>
 
 \* ---------------------------------------------------------------- store reads
@@ -115,7 +119,7 @@ Init ==
     /\ pending = <<>> /\ inflight = <<>> /\ doneSet = {}
     /\ resp = [p \in Procs |-> NoResp]
     /\ events = <<>>
-    /\ gen = 0 /\ crashes = 0
+    /\ gen = 0 /\ crashes = 0 /\ cancelled = {}
 
 \* ---------------------------------------------------------------- lock manager (see Lock.tla)
 Compat(r, w, rlc, wlc) == r \cap wlc = {} /\ \A x \in w : rlc[x] = 0 /\ x \notin wlc
@@ -140,8 +144,7 @@ AfterUnlock(p) ==
 
 \* ---------------------------------------------------------------- generic tails
 \* p leaves the commander with response r: every reservation and lock it still holds is released
-Return(p, r) ==
-    LET u == AfterUnlock(p) IN
+ReturnWith(p, r, u) ==
     /\ rl' = u.rl /\ wl' = u.wl /\ lq' = u.rest
     /\ loc' = [q \in Procs |-> IF q = p THEN Blank
                                ELSE IF q \in u.granted THEN [loc[q] EXCEPT !.granted = TRUE] ELSE loc[q]]
@@ -149,6 +152,8 @@ Return(p, r) ==
     /\ seqOwner' = IF seqOwner = p THEN "none" ELSE seqOwner
     /\ pc' = [pc EXCEPT ![p] = "finished"]
     /\ resp' = [resp EXCEPT ![p] = r]
+
+Return(p, r) == ReturnWith(p, r, AfterUnlock(p))
 
 Goto(p, point) == pc' = [pc EXCEPT ![p] = point]
 Fail(p, code) == Return(p, MkResp(p, "err", -1, -1, code))
@@ -225,12 +230,20 @@ S_LockReq(p) ==
             /\ Goto(p, "lock.wait")
     /\ UNCHANGED <<store, lastLog, lastTx, refs, seqOwner, pending, inflight, doneSet, resp, events>>
 
-\* the waiter observes its grant
+\* the waiter's select: it observes its grant, or (context cancelled) gives up. When both
+\* are ready Go takes either branch. Giving up removes the intent from the queue or gives
+\* back a grant that arrived meanwhile (and rechecks the queue).
 S_LockObserve(p) ==
-    /\ loc[p].granted
-    /\ loc' = [loc EXCEPT ![p].granted = FALSE, ![p].holding = TRUE]
-    /\ Goto(p, "locked")
-    /\ UNCHANGED <<store, lastLog, lastTx, refs, rl, wl, lq, seqOwner, pending, inflight, doneSet, resp, events>>
+    \/ /\ loc[p].granted
+       /\ loc' = [loc EXCEPT ![p].granted = FALSE, ![p].holding = TRUE]
+       /\ Goto(p, "locked")
+       /\ UNCHANGED <<store, lastLog, lastTx, refs, rl, wl, lq, seqOwner, pending, inflight, doneSet, resp, events>>
+    \/ /\ p \in cancelled
+       /\ LET u == IF loc[p].granted
+                   THEN Scan(lq, DropR(rl, loc[p].lockR), wl \ loc[p].lockW)
+                   ELSE [rl |-> rl, wl |-> wl, granted |-> {}, rest |-> SelectSeq(lq, LAMBDA x : x # p)]
+          IN ReturnWith(p, MkResp(p, "err", -1, -1, "lock-cancelled"), u)
+       /\ UNCHANGED <<store, lastLog, lastTx, pending, inflight, doneSet, events>>
 
 \* exec(): [unlock if UnlockAt = "early"] ResolveBalances + vm.Run
 S_ReadRun(p) ==
@@ -262,8 +275,8 @@ LogOf(p, id) ==
     LET r == req[p] IN
     CASE r.kind = "create"  -> MkLog(id, "tx", p, loc[p].txid, -1, "", "", loc[p].posts, r.ref, r.ik, r.od)
       [] r.kind = "revert"  -> MkLog(id, "rev", p, loc[p].txid, r.target, "", "", loc[p].posts, "", r.ik, r.od)
-      [] r.kind = "setmeta" -> MkLog(id, "set", p, -1, r.target, r.tacct, r.mval, <<>>, "", r.ik, FALSE)
-      [] r.kind = "delmeta" -> MkLog(id, "del", p, -1, r.target, r.tacct, "", <<>>, "", r.ik, FALSE)
+      [] r.kind = "setmeta" -> MkLog(id, "set", p, -1, r.target, r.tacct, r.mval, <<>>, "", IF MetaLogsCarryIk THEN r.ik ELSE "", FALSE)
+      [] r.kind = "delmeta" -> MkLog(id, "del", p, -1, r.target, r.tacct, "", <<>>, "", IF MetaLogsCarryIk THEN r.ik ELSE "", FALSE)
 
 \* AppendLog(): chainLog() under the commander mutex - or the dry-run branch
 S_Chain(p) ==
@@ -296,9 +309,12 @@ S_ExecReturn(p) ==
 
 \* <-done : enabled once the Terminated callback of the log has run
 S_WaitDone(p) ==
-    /\ req[p].dry \/ loc[p].log.id \in doneSet \/ ~AckWaitsPersist
-    /\ Goto(p, "done")
-    /\ UNCHANGED <<loc, store, lastLog, lastTx, refs, rl, wl, lq, seqOwner, pending, inflight, doneSet, resp, events>>
+    \/ /\ req[p].dry \/ loc[p].log.id \in doneSet \/ ~AckWaitsPersist
+       /\ Goto(p, "done")
+       /\ UNCHANGED <<loc, store, lastLog, lastTx, refs, rl, wl, lq, seqOwner, pending, inflight, doneSet, resp, events>>
+    \/ /\ CancelAbortsWait /\ p \in cancelled /\ ~req[p].dry /\ loc[p].log.id \notin doneSet
+       /\ Fail(p, "cancelled")
+       /\ UNCHANGED <<store, lastLog, lastTx, pending, inflight, doneSet, events>>
 
 \* run() returns to the public method: remaining reservations and locks are released,
 \* except the revert reservation which is held until the public method returns
@@ -369,7 +385,7 @@ AfterIk(p) ==
     ELSE S_MetaCheck(p)
 
 Step(p) ==
-    /\ UNCHANGED <<req, gen, crashes>>
+    /\ UNCHANGED <<req, gen, crashes, cancelled>>
     /\ CASE pc[p] = "start"       -> /\ req[p].gen = gen
                                      /\ IF req[p].kind = "revert" THEN S_RevTake(p) ELSE EnterRun(p)
          [] pc[p] = "rev.taken"   -> S_RevRead(p)
@@ -402,7 +418,7 @@ Persist ==
     /\ store' = store \o inflight
     /\ doneSet' = doneSet \cup IdsOf(inflight)
     /\ inflight' = pending /\ pending' = <<>>
-    /\ UNCHANGED <<req, pc, loc, lastLog, lastTx, refs, rl, wl, lq, seqOwner, resp, events, gen, crashes>>
+    /\ UNCHANGED <<req, pc, loc, lastLog, lastTx, refs, rl, wl, lq, seqOwner, resp, events, gen, crashes, cancelled>>
 
 Live(p) == pc[p] \notin {"start", "finished", "dead"}
 
@@ -423,9 +439,16 @@ Crash(applied) ==
     /\ refs' = {} /\ rl' = [a \in LockAccts |-> 0] /\ wl' = {} /\ lq' = <<>> /\ seqOwner' = "none"
     /\ pending' = <<>> /\ inflight' = <<>> /\ doneSet' = {}
     /\ gen' = 1 /\ crashes' = crashes + 1
-    /\ UNCHANGED <<req, events>>
+    /\ UNCHANGED <<req, events, cancelled>>
 
-Next == (\E p \in Procs : Step(p)) \/ Persist \/ Crash(TRUE) \/ Crash(FALSE)
+\* the caller of a request in flight cancels its context
+Cancel(p) ==
+    /\ Live(p) /\ p \notin cancelled /\ Cardinality(cancelled) < MaxCancel
+    /\ cancelled' = cancelled \cup {p}
+    /\ UNCHANGED <<req, pc, loc, store, lastLog, lastTx, refs, rl, wl, lq, seqOwner, pending, inflight,
+                   doneSet, resp, events, gen, crashes>>
+
+Next == (\E p \in Procs : Step(p) \/ Cancel(p)) \/ Persist \/ Crash(TRUE) \/ Crash(FALSE)
 
 Spec == Init /\ [][Next]_vars
 
@@ -439,7 +462,7 @@ C05_TxIdsSequential == TxIdsSequential(store)
 C06_AckPersisted    == AckPersisted(store, resp)
 C06_RejectedLeavesNothing == RejectedLeavesNothing(store, resp)
 C06_OneEntryPerRequest    == AtMostOneEntryPerRequest(store, Procs) /\ EveryEntryHasProducer(store, Procs)
-C07_IkOnce          == IkOnce(store) /\ IkSameOutcome(resp)
+C07_IkOnce          == IkOnce(store) /\ IkSameOutcome(resp) /\ IkOncePerRequestKey(store, [p \in Procs |-> req[p].ik])
 C10_RevertOnce      == RevertOnce(store) /\ RevertIsInverse(store)
 C11_RefOnce         == RefOnce(store)
 C14_DryRun          == DryLeavesNoEntry(store, DryProcs) /\ DryPublishesNothing(events, DryProcs)
